@@ -1,6 +1,7 @@
 import SamplyModel.Lemmas.ChunkCache
 import SamplyModel.Lemmas.ChunkCacheIface
 import SamplyModel.Lemmas.ChunkCacheConc
+import SamplyModel.Lemmas.ChunkCacheConcTerm
 import SamplyModel.Lemmas.ChunkCacheShared
 import SamplyModel.Lemmas.ChunkCacheCover
 /-!
@@ -348,6 +349,18 @@ theorem C13_interleaving_deadlock_free (c : Cfg) (F : List UInt8) (hc : 0 < c.ch
     (hu : u.finished = false) :
     ∃ k, (runSched c (Sys.init F.length progs) sched).enabled c k = true :=
   sysOk_progress c F progs _ (runSched_ok c F hc hsz hf progs sched _ (sysOk_init c F progs)) j u hj hu
+
+/-- Every execution is finite: a scheduled thread that is enabled runs one section and strictly decreases
+`Sys.measure` (4 per call still to make + the sections left in the call in progress), a scheduled thread that
+is not enabled (finished, or blocked on the `string_cache` mutex) changes nothing, and the measure starts at
+`4 · (total number of calls)`. With `C13_interleaving_deadlock_free`: under every schedule at most
+`4 · #calls` sections run, and as long as some call is outstanding some thread can run — so every maximal
+execution completes every call of every thread, with the outcomes of `C13_interleaving`. -/
+theorem C13_interleaving_terminates (c : Cfg) (s : Sys) (k : Nat) (fileLen : Nat) (progs : List (List Op)) :
+    (s.enabled c k = true → (sysStep c s k).measure < s.measure) ∧
+    (s.enabled c k = false → sysStep c s k = s) ∧
+    (Sys.init fileLen progs).measure = 4 * (progs.map List.length).sum :=
+  ⟨sysStep_measure c s k, sysStep_not_enabled c s k, measure_init fileLen progs⟩
 
 /-- The section model refines to the sequential model: the sections of one call run without another thread
 in between are exactly `CC.step` — the function that the correspondence run compares with the real code, call
